@@ -32,7 +32,7 @@ manifest = dict(
     hooks=dict(
         guard="verif",
         enable="go build tag: go test -c -tags verif (the driver passes it for every harness package)",
-        baseline_off_cmd="cd /repo && GOFLAGS=-mod=mod GOPROXY=off go test -vet=off -count=1 ./... 2>&1 | grep -v 'build failed\\|setup failed' ; true",
+        baseline_off_cmd="cd /repo && GOFLAGS=-mod=mod GOPROXY=off go test -json -vet=off -count=1 -timeout 25m ./...",
         source_commits=HOOK_COMMITS,
         add_only=True,
     ),
